@@ -20,6 +20,7 @@
 EXTENDS KeyEnc, DerSig, Json
 
 CONSTANTS Stage,
+          SecLens,                              \* "sec256": blob lengths
           SecPfx, SecXs, SecYs, SecLongYs,      \* "sec": prefix octets, X values, Y values, Y values also tried with one octet too many
           DerPos,                               \* "der": the alphabet of each position of the prefix (a sequence of sets)
           DerExt, DerExtLen                     \* extension alphabet (a sequence), longest extension
@@ -39,7 +40,10 @@ PosSigQ  == <<Only30, {5, 6, 7}, {2}, {1, 2}, Set8, Set8>>          \* with Sigm
 PosSigT  == <<Only30, {4, 5, 6, 7, 8, 129}, {2}, {0, 1, 2, 3, 129}, Set8, Set8, Set8>>   \* with Sigma8^(0..3): 7..10 octets
 One0    == <<0>>
 AllBytes == 0..255
+LensQ == {0, 1, 32, 33, 34, 64, 65, 66}
+LensT == 0..70
 SlicePfx == {0, 1, 2, 3, 4, 5, 6, 7, 8, 255}
+SlicePfx7 == {0, 2, 3, 4, 6, 7, 255}
 FieldEdge == (0..5) \cup ((P - 3)..(P + 5)) \cup ((2 * P - 2)..(2 * P + 2)) \cup {255, 256, 257, 65535 - P, 65534, 65535}
 FieldEdgeWide == (0..(2 * P + 5)) \cup {65535 - P, 65534, 65535}
 AllX2 == 0..65535
@@ -105,7 +109,7 @@ ToyEval(it) ==
 \*             "pt+p"   the former plus p (< 2^256)     "nopt+p"  the latter plus p
 \*  y classes  "even" / "odd"  the root of that parity  "off"     a field element that is no root
 \*             "root+p"  a root plus p (< 2^256)
-Lens256 == {0, 1, 32, 33, 34, 64, 65, 66}
+Lens256 == SecLens
 XClasses == {"pt", "nopt", "pt+p", "nopt+p"}
 YClasses == {"even", "odd", "off", "root+p"}
 Fields256(len, pfx, xc, yc) ==
